@@ -11,7 +11,7 @@ namespace Bermuda
 open Std
 
 /-! ### dates -/
-theorem Date.lt_iff (a b : Date) :
+theorem Date.lt_iff_sel (a b : Date) :
     a < b ↔ a.y < b.y ∨ (a.y = b.y ∧ (a.m < b.m ∨ (a.m = b.m ∧ a.d < b.d))) := by
   show Date.cmp a b = .lt ↔ _
   simp only [Date.cmp, compareLex, cmpOn, Ordering.then_eq_lt, Int.compare_eq_lt, Nat.compare_eq_lt, compare_eq_iff_eq]
@@ -57,13 +57,13 @@ theorem Date.le_trans {a b c : Date} (h₁ : a ≤ b) (h₂ : b ≤ c) : a ≤ c
   rw [Date.le_iff] at *; omega
 
 theorem Date.lt_of_lt_of_le {a b c : Date} (h₁ : a < b) (h₂ : b ≤ c) : a < c := by
-  rw [Date.lt_iff] at *; rw [Date.le_iff] at h₂; omega
+  rw [Date.lt_iff_sel] at *; rw [Date.le_iff] at h₂; omega
 
 theorem Date.lt_of_le_of_lt {a b c : Date} (h₁ : a ≤ b) (h₂ : b < c) : a < c := by
-  rw [Date.lt_iff] at *; rw [Date.le_iff] at h₁; omega
+  rw [Date.lt_iff_sel] at *; rw [Date.le_iff] at h₁; omega
 
 theorem Date.not_le {a b : Date} : ¬ a ≤ b ↔ b < a := by
-  rw [Date.le_iff, Date.lt_iff]; omega
+  rw [Date.le_iff, Date.lt_iff_sel]; omega
 
 theorem Date.le_antisymm {a b : Date} (h₁ : a ≤ b) (h₂ : b ≤ a) : a = b := by
   rw [Date.le_iff] at *
@@ -94,7 +94,7 @@ theorem clipFull_eq (t : List Cell) (a : ClipFull) (u : LagUnit) (hu : a.unit = 
 
 /-! ### sub-lists of a canonical triangle need no re-sorting -/
 
-theorem kindsConsistent_sublist {s l : List Cell} (hs : s.Sublist l)
+theorem kindsConsistent_sublist_sel {s l : List Cell} (hs : s.Sublist l)
     (hk : kindsConsistent l = true) : kindsConsistent s = true := by
   unfold kindsConsistent at *
   simp only [Bool.or_eq_true, List.all_eq_true] at *
@@ -107,7 +107,7 @@ theorem ofCells_sublist {t s : List Cell} (hs : s.Sublist t)
     (hsorted : t.Pairwise (fun a b => Cell.le a b)) (hk : kindsConsistent t = true) :
     Triangle.ofCells s = .ok s := by
   unfold Triangle.ofCells
-  rw [kindsConsistent_sublist hs hk]
+  rw [kindsConsistent_sublist_sel hs hk]
   simp only [if_true]
   congr 1
   exact List.mergeSort_of_pairwise (hsorted.sublist hs)
@@ -160,22 +160,22 @@ theorem flatMap_filter_perm {α κ} [BEq κ] [LawfulBEq κ] (key : α → κ) (l
 
 /-! ### `toolz.groupby` -/
 /-- what `toolz.groupby` guarantees about its groups after reading the prefix `pre` -/
-structure GInv {α κ} [BEq κ] (key : α → κ) (pre : List α) (acc : List (κ × List α)) : Prop where
+structure GInvSel {α κ} [BEq κ] (key : α → κ) (pre : List α) (acc : List (κ × List α)) : Prop where
   nodup : (acc.map (·.1)).Nodup
   grp : ∀ p ∈ acc, p.2 = pre.filter (fun a => key a == p.1) ∧ p.2 ≠ []
   cov : ∀ a ∈ pre, key a ∈ acc.map (·.1)
 
-def gstep {α κ} [BEq κ] (key : α → κ) (acc : List (κ × List α)) (a : α) : List (κ × List α) :=
+def gstepSel {α κ} [BEq κ] (key : α → κ) (acc : List (κ × List α)) (a : α) : List (κ × List α) :=
   let k := key a
   if acc.any (·.1 == k) then acc.map (fun p => if p.1 == k then (p.1, p.2 ++ [a]) else p)
   else acc ++ [(k, [a])]
 
-theorem groupBy_eq_foldl {α κ} [BEq κ] (key : α → κ) (l : List α) :
-    groupBy key l = l.foldl (gstep key) [] := rfl
+theorem groupBy_eq_foldl_sel {α κ} [BEq κ] (key : α → κ) (l : List α) :
+    groupBy key l = l.foldl (gstepSel key) [] := rfl
 
 theorem gstep_inv {α κ} [BEq κ] [LawfulBEq κ] {key : α → κ} {pre : List α} {acc : List (κ × List α)}
-    (a : α) (h : GInv key pre acc) : GInv key (pre ++ [a]) (gstep key acc a) := by
-  unfold gstep
+    (a : α) (h : GInvSel key pre acc) : GInvSel key (pre ++ [a]) (gstepSel key acc a) := by
+  unfold gstepSel
   simp only []
   split
   · rename_i hany
@@ -230,18 +230,18 @@ theorem gstep_inv {α κ} [BEq κ] [LawfulBEq κ] {key : α → κ} {pre : List 
       · simp at hx; subst hx; simp
 
 theorem foldl_gstep_inv {α κ} [BEq κ] [LawfulBEq κ] {key : α → κ} (l : List α) {pre : List α}
-    {acc : List (κ × List α)} (h : GInv key pre acc) :
-    GInv key (pre ++ l) (l.foldl (gstep key) acc) := by
+    {acc : List (κ × List α)} (h : GInvSel key pre acc) :
+    GInvSel key (pre ++ l) (l.foldl (gstepSel key) acc) := by
   induction l generalizing pre acc with
   | nil => simpa using h
   | cons a l ih =>
     have := ih (gstep_inv a h)
     simpa [List.append_assoc] using this
 
-theorem groupBy_inv {α κ} [BEq κ] [LawfulBEq κ] (key : α → κ) (l : List α) :
-    GInv key l (groupBy key l) := by
+theorem groupBy_inv_sel {α κ} [BEq κ] [LawfulBEq κ] (key : α → κ) (l : List α) :
+    GInvSel key l (groupBy key l) := by
   have := foldl_gstep_inv (key := key) l (pre := []) (acc := []) ⟨by simp, by simp, by simp⟩
-  simpa [groupBy_eq_foldl] using this
+  simpa [groupBy_eq_foldl_sel] using this
 
 /-! ### `metasOf` -/
 
